@@ -19,6 +19,7 @@ import (
 	"github.com/notaryproject/notation-go"
 	"github.com/notaryproject/notation-go/verifier"
 	"github.com/notaryproject/notation-go/verifier/trustpolicy"
+	"github.com/notaryproject/notation-go/zzverif/engine/timeshim"
 	"github.com/notaryproject/notation-go/zzverif/lib/forge"
 	"github.com/notaryproject/notation-go/zzverif/lib/hx"
 	"github.com/notaryproject/notation-go/zzverif/lib/mocks"
@@ -156,10 +157,13 @@ type expect struct {
 	Why         string
 }
 
-func (w *world) model(c caseT) expect {
+func (w *world) model(c caseT) expect { return w.modelAt(c, 0) }
+
+// modelAt evaluates the reference with the verification instant displaced by nowOff (clock seam).
+func (w *world) modelAt(c caseT, nowOff time.Duration) expect {
 	var e expect
 	ex := expiries[c.Expiry]
-	e.ExpiryFails = ex.Set && ex.Off <= 0
+	e.ExpiryFails = ex.Set && ex.Off <= nowOff
 	wins := []window{windows[c.LeafW], windows[c.CAW]}
 	inside := func(lo, hi time.Duration) bool {
 		for _, wd := range wins {
@@ -177,13 +181,13 @@ func (w *world) model(c caseT) expect {
 	}
 	anyExpired := false
 	for _, wd := range wins {
-		if wd.To < 0 {
+		if wd.To < nowOff {
 			anyExpired = true
 		}
 	}
 	applies := c.TSAPol != 0 && (options[c.Option] != trustpolicy.OptionAfterCertExpiry || anyExpired)
 	if !applies {
-		e.TSPasses = inside(0, 0)
+		e.TSPasses = inside(nowOff, nowOff)
 		e.Why = "timestamping does not apply: chain valid at verification time"
 		return e
 	}
@@ -317,6 +321,111 @@ func (w *world) run(r *hx.Run, c caseT) {
 	}
 }
 
+// ---- clock-advance histories (clock seam) ----
+//
+// Package verifier is compiled with its "time" import rewritten to engine/timeshim, so the harness decides
+// what time.Now() returns inside the verifier. One verifier instance verifies the same signature at two
+// instants (all ordered pairs of offsets; every offset keeps each instant of the case >= 1 h away from the
+// displaced "now"): each verification must follow the clock model for ITS instant - nothing about time may
+// be remembered by the instance.
+
+var clockOffsets = []time.Duration{0, 2 * day, 11 * day, -2 * day, 26 * time.Hour}
+
+type clockCase struct {
+	Case caseT           `json:"case"`
+	Offs []time.Duration `json:"offsets"`
+}
+
+func (w *world) clockFamily(r *hx.Run) {
+	timeshim.SetOffset(0)
+	before := timeshim.Calls()
+	w.run(r, caseT{})
+	if timeshim.Calls() == before {
+		r.Capped("clock seam not active (overlay build failed or package verifier no longer reads package time): clock-advance histories not run")
+		return
+	}
+	var cases []caseT
+	for sc := 0; sc < 2; sc++ {
+		for tp := 0; tp < 2; tp++ {
+			for opt := 0; opt < 3; opt++ {
+				for lw := range windows {
+					for ex := range expiries {
+						for _, tk := range []int{0, 1, 3} {
+							for f := 0; f < 2; f++ {
+								if sc == 1 && (tp != 0 || opt != 0 || tk != 0) {
+									continue
+								}
+								if !r.Thorough() && (opt == 1 || (f == 1 && lw != 0)) {
+									continue
+								}
+								cases = append(cases, caseT{Scheme: sc, TSAPol: tp, Option: opt, LeafW: lw, Expiry: ex, Token: tk, Format: f})
+							}
+						}
+					}
+				}
+			}
+		}
+	}
+	n := 0
+	for _, c := range cases {
+		for _, o1 := range clockOffsets {
+			for _, o2 := range clockOffsets {
+				if o1 == o2 {
+					continue
+				}
+				n++
+				w.clockPair(r, c, []time.Duration{o1, o2})
+			}
+		}
+	}
+	timeshim.SetOffset(0)
+	r.Extra["clock_histories"] = n
+	r.Extra["clock_offsets"] = fmt.Sprint(clockOffsets)
+}
+
+func (w *world) clockPair(r *hx.Run, c caseT, offs []time.Duration) {
+	caType := []string{"ca", "signingAuthority"}[c.Scheme]
+	ch := w.chain(c.LeafW, c.CAW)
+	ts := mocks.NewTrustStore().Put(caType, "s", ch.Root().Cert)
+	stores := []string{caType + ":s"}
+	if c.TSAPol == 1 {
+		stores = append(stores, "tsa:t")
+		ts.Put("tsa", "t", w.auth[0].Root.Cert)
+	}
+	sv := trustpolicy.SignatureVerification{VerificationLevel: "strict", VerifyTimestamp: options[c.Option], Override: map[trustpolicy.ValidationType]trustpolicy.ValidationAction{
+		trustpolicy.TypeAuthenticTimestamp: trustpolicy.ActionLog, trustpolicy.TypeExpiry: trustpolicy.ActionLog, trustpolicy.TypeRevocation: trustpolicy.ActionSkip}}
+	v, err := verifier.NewVerifierWithOptions(ts, verifier.VerifierOptions{OCITrustPolicy: vt.OCIDoc(sv, stores, []string{"*"}), RevocationCodeSigningValidator: mocks.AllOK(), RevocationTimestampingValidator: mocks.AllOK()})
+	if err != nil {
+		r.Infra("verifier: %v", err)
+		return
+	}
+	env := w.envelope(c)
+	for step, off := range offs {
+		timeshim.SetOffset(off)
+		r.Eval(1)
+		outcome, verr := v.Verify(ctx, w.desc, env, notation.VerifierVerifyOptions{ArtifactReference: "reg.io/r@" + w.desc.Digest.String(), SignatureMediaType: forge.Formats[c.Format]})
+		timeshim.SetOffset(0)
+		want := w.modelAt(c, off)
+		where := fmt.Sprintf("step %d of clock history %v on one verifier", step+1, offs)
+		bad := func(key, what string) {
+			r.Violation("clock/"+key, what+" | "+where+" | "+c.String(), clockCase{c, offs})
+		}
+		er, tr := vt.ResultOf(outcome, trustpolicy.TypeExpiry), vt.ResultOf(outcome, trustpolicy.TypeAuthenticTimestamp)
+		if outcome == nil || verr != nil || len(er) != 1 || len(tr) != 1 {
+			bad("all-log-level-did-not-report-both-results", fmt.Sprintf("err=%v", verr))
+			return
+		}
+		if got := er[0].Error != nil; got != want.ExpiryFails {
+			bad(fmt.Sprintf("expiry-fails=%v-model=%v:step%d", got, want.ExpiryFails, step+1), fmt.Sprintf("verification instant now%+v: expiry result error=%v", off, er[0].Error))
+		}
+		if got := tr[0].Error == nil; got != want.TSPasses {
+			bad(fmt.Sprintf("timestamp-passes=%v-model=%v:step%d", got, want.TSPasses, step+1), fmt.Sprintf("verification instant now%+v: authentic-timestamp error=%v; model: %s", off, tr[0].Error, want.Why))
+		}
+		r.Outcome(fmt.Sprintf("clock: step%d expiry-fails=%v ts-passes=%v", step+1, want.ExpiryFails, want.TSPasses))
+		r.Nontrivial(fmt.Sprintf("clock|%+v|%v|%d", c, offs, step))
+	}
+}
+
 func slug(s string) string {
 	out := []rune{}
 	for _, r := range s {
@@ -345,6 +454,11 @@ func main() {
 	w.auth = []*tsa.Authority{tsa.New("trusted", 0, tsa.LeafProper, nb, na), tsa.New("untrusted", 1, tsa.LeafProper, nb, na), tsa.New("noncritical", 2, tsa.LeafEKUNotCritical, nb, na), tsa.New("codesigning", 3, tsa.LeafCodeSigning, nb, na)}
 
 	if r.Replay != "" {
+		var cc clockCase
+		if err := r.LoadReplay(&cc); err == nil && len(cc.Offs) > 0 {
+			w.clockPair(r, cc.Case, cc.Offs)
+			r.Finish()
+		}
 		var c caseT
 		if err := r.LoadReplay(&c); err != nil {
 			r.Infra("replay: %v", err)
@@ -408,5 +522,7 @@ func main() {
 			r.Sample(map[string]any{"case": cases[i].String(), "model": w.model(cases[i])})
 		}
 	}, nil)
+	// sequential: the displaced clock is process-global
+	w.clockFamily(r)
 	r.Finish()
 }
